@@ -246,3 +246,89 @@ package car
 
 //@ func ReadVersion
 //@   call[carv1.ReadHeader#0] assert configured_header_limit [C09]: arg1 == o.MaxAllowedHeaderSize
+
+// Options (C04, C05, C09, ...): every option sets exactly its own field; ApplyOptions supplies the documented defaults.
+
+//@ func ZeroLengthSectionAsEOF
+//@   closure[0]
+//@     ensures sets_its_field [C02,C13]: o.ZeroLengthSectionAsEOF == enable
+//@     ensures touches_nothing_else [C02,C13]: o.DataPadding == old(o.DataPadding) && o.IndexPadding == old(o.IndexPadding) && o.IndexCodec == old(o.IndexCodec) && o.MaxIndexCidSize == old(o.MaxIndexCidSize) && o.StoreIdentityCIDs == old(o.StoreIdentityCIDs) && o.BlockstoreAllowDuplicatePuts == old(o.BlockstoreAllowDuplicatePuts) && o.BlockstoreUseWholeCIDs == old(o.BlockstoreUseWholeCIDs) && o.MaxTraversalLinks == old(o.MaxTraversalLinks) && o.WriteAsCarV1 == old(o.WriteAsCarV1) && o.TrustedCAR == old(o.TrustedCAR) && o.MaxAllowedHeaderSize == old(o.MaxAllowedHeaderSize) && o.MaxAllowedSectionSize == old(o.MaxAllowedSectionSize)
+//@   end
+
+//@ func UseDataPadding
+//@   closure[0]
+//@     ensures sets_its_field [C05,C12]: o.DataPadding == p
+//@     ensures touches_nothing_else [C05,C12]: o.IndexPadding == old(o.IndexPadding) && o.IndexCodec == old(o.IndexCodec) && o.ZeroLengthSectionAsEOF == old(o.ZeroLengthSectionAsEOF) && o.MaxIndexCidSize == old(o.MaxIndexCidSize) && o.StoreIdentityCIDs == old(o.StoreIdentityCIDs) && o.BlockstoreAllowDuplicatePuts == old(o.BlockstoreAllowDuplicatePuts) && o.BlockstoreUseWholeCIDs == old(o.BlockstoreUseWholeCIDs) && o.MaxTraversalLinks == old(o.MaxTraversalLinks) && o.WriteAsCarV1 == old(o.WriteAsCarV1) && o.TrustedCAR == old(o.TrustedCAR) && o.MaxAllowedHeaderSize == old(o.MaxAllowedHeaderSize) && o.MaxAllowedSectionSize == old(o.MaxAllowedSectionSize)
+//@   end
+
+//@ func UseIndexPadding
+//@   closure[0]
+//@     ensures sets_its_field [C05]: o.IndexPadding == p
+//@     ensures touches_nothing_else [C05]: o.DataPadding == old(o.DataPadding) && o.IndexCodec == old(o.IndexCodec) && o.ZeroLengthSectionAsEOF == old(o.ZeroLengthSectionAsEOF) && o.MaxIndexCidSize == old(o.MaxIndexCidSize) && o.StoreIdentityCIDs == old(o.StoreIdentityCIDs) && o.BlockstoreAllowDuplicatePuts == old(o.BlockstoreAllowDuplicatePuts) && o.BlockstoreUseWholeCIDs == old(o.BlockstoreUseWholeCIDs) && o.MaxTraversalLinks == old(o.MaxTraversalLinks) && o.WriteAsCarV1 == old(o.WriteAsCarV1) && o.TrustedCAR == old(o.TrustedCAR) && o.MaxAllowedHeaderSize == old(o.MaxAllowedHeaderSize) && o.MaxAllowedSectionSize == old(o.MaxAllowedSectionSize)
+//@   end
+
+//@ func UseIndexCodec
+//@   closure[0]
+//@     ensures sets_its_field [C05,C11]: o.IndexCodec == c
+//@     ensures touches_nothing_else [C05,C11]: o.DataPadding == old(o.DataPadding) && o.IndexPadding == old(o.IndexPadding) && o.ZeroLengthSectionAsEOF == old(o.ZeroLengthSectionAsEOF) && o.MaxIndexCidSize == old(o.MaxIndexCidSize) && o.StoreIdentityCIDs == old(o.StoreIdentityCIDs) && o.BlockstoreAllowDuplicatePuts == old(o.BlockstoreAllowDuplicatePuts) && o.BlockstoreUseWholeCIDs == old(o.BlockstoreUseWholeCIDs) && o.MaxTraversalLinks == old(o.MaxTraversalLinks) && o.WriteAsCarV1 == old(o.WriteAsCarV1) && o.TrustedCAR == old(o.TrustedCAR) && o.MaxAllowedHeaderSize == old(o.MaxAllowedHeaderSize) && o.MaxAllowedSectionSize == old(o.MaxAllowedSectionSize)
+//@   end
+
+//@ func WithoutIndex
+//@   closure[0]
+//@     ensures sets_its_field [C05]: o.IndexCodec == 3145728
+//@     ensures touches_nothing_else [C05]: o.DataPadding == old(o.DataPadding) && o.IndexPadding == old(o.IndexPadding) && o.ZeroLengthSectionAsEOF == old(o.ZeroLengthSectionAsEOF) && o.MaxIndexCidSize == old(o.MaxIndexCidSize) && o.StoreIdentityCIDs == old(o.StoreIdentityCIDs) && o.BlockstoreAllowDuplicatePuts == old(o.BlockstoreAllowDuplicatePuts) && o.BlockstoreUseWholeCIDs == old(o.BlockstoreUseWholeCIDs) && o.MaxTraversalLinks == old(o.MaxTraversalLinks) && o.WriteAsCarV1 == old(o.WriteAsCarV1) && o.TrustedCAR == old(o.TrustedCAR) && o.MaxAllowedHeaderSize == old(o.MaxAllowedHeaderSize) && o.MaxAllowedSectionSize == old(o.MaxAllowedSectionSize)
+//@   end
+
+//@ func StoreIdentityCIDs
+//@   closure[0]
+//@     ensures sets_its_field [C04]: o.StoreIdentityCIDs == b
+//@     ensures touches_nothing_else [C04]: o.DataPadding == old(o.DataPadding) && o.IndexPadding == old(o.IndexPadding) && o.IndexCodec == old(o.IndexCodec) && o.ZeroLengthSectionAsEOF == old(o.ZeroLengthSectionAsEOF) && o.MaxIndexCidSize == old(o.MaxIndexCidSize) && o.BlockstoreAllowDuplicatePuts == old(o.BlockstoreAllowDuplicatePuts) && o.BlockstoreUseWholeCIDs == old(o.BlockstoreUseWholeCIDs) && o.MaxTraversalLinks == old(o.MaxTraversalLinks) && o.WriteAsCarV1 == old(o.WriteAsCarV1) && o.TrustedCAR == old(o.TrustedCAR) && o.MaxAllowedHeaderSize == old(o.MaxAllowedHeaderSize) && o.MaxAllowedSectionSize == old(o.MaxAllowedSectionSize)
+//@   end
+
+//@ func MaxIndexCidSize
+//@   closure[0]
+//@     ensures sets_its_field [C04]: o.MaxIndexCidSize == s
+//@     ensures touches_nothing_else [C04]: o.DataPadding == old(o.DataPadding) && o.IndexPadding == old(o.IndexPadding) && o.IndexCodec == old(o.IndexCodec) && o.ZeroLengthSectionAsEOF == old(o.ZeroLengthSectionAsEOF) && o.StoreIdentityCIDs == old(o.StoreIdentityCIDs) && o.BlockstoreAllowDuplicatePuts == old(o.BlockstoreAllowDuplicatePuts) && o.BlockstoreUseWholeCIDs == old(o.BlockstoreUseWholeCIDs) && o.MaxTraversalLinks == old(o.MaxTraversalLinks) && o.WriteAsCarV1 == old(o.WriteAsCarV1) && o.TrustedCAR == old(o.TrustedCAR) && o.MaxAllowedHeaderSize == old(o.MaxAllowedHeaderSize) && o.MaxAllowedSectionSize == old(o.MaxAllowedSectionSize)
+//@   end
+
+//@ func WithTrustedCAR
+//@   closure[0]
+//@     ensures sets_its_field [C02]: o.TrustedCAR == t
+//@     ensures touches_nothing_else [C02]: o.DataPadding == old(o.DataPadding) && o.IndexPadding == old(o.IndexPadding) && o.IndexCodec == old(o.IndexCodec) && o.ZeroLengthSectionAsEOF == old(o.ZeroLengthSectionAsEOF) && o.MaxIndexCidSize == old(o.MaxIndexCidSize) && o.StoreIdentityCIDs == old(o.StoreIdentityCIDs) && o.BlockstoreAllowDuplicatePuts == old(o.BlockstoreAllowDuplicatePuts) && o.BlockstoreUseWholeCIDs == old(o.BlockstoreUseWholeCIDs) && o.MaxTraversalLinks == old(o.MaxTraversalLinks) && o.WriteAsCarV1 == old(o.WriteAsCarV1) && o.MaxAllowedHeaderSize == old(o.MaxAllowedHeaderSize) && o.MaxAllowedSectionSize == old(o.MaxAllowedSectionSize)
+//@   end
+
+//@ func MaxAllowedHeaderSize
+//@   closure[0]
+//@     ensures sets_its_field [C09]: o.MaxAllowedHeaderSize == max
+//@     ensures touches_nothing_else [C09]: o.DataPadding == old(o.DataPadding) && o.IndexPadding == old(o.IndexPadding) && o.IndexCodec == old(o.IndexCodec) && o.ZeroLengthSectionAsEOF == old(o.ZeroLengthSectionAsEOF) && o.MaxIndexCidSize == old(o.MaxIndexCidSize) && o.StoreIdentityCIDs == old(o.StoreIdentityCIDs) && o.BlockstoreAllowDuplicatePuts == old(o.BlockstoreAllowDuplicatePuts) && o.BlockstoreUseWholeCIDs == old(o.BlockstoreUseWholeCIDs) && o.MaxTraversalLinks == old(o.MaxTraversalLinks) && o.WriteAsCarV1 == old(o.WriteAsCarV1) && o.TrustedCAR == old(o.TrustedCAR) && o.MaxAllowedSectionSize == old(o.MaxAllowedSectionSize)
+//@   end
+
+//@ func MaxAllowedSectionSize
+//@   closure[0]
+//@     ensures sets_its_field [C09]: o.MaxAllowedSectionSize == max
+//@     ensures touches_nothing_else [C09]: o.DataPadding == old(o.DataPadding) && o.IndexPadding == old(o.IndexPadding) && o.IndexCodec == old(o.IndexCodec) && o.ZeroLengthSectionAsEOF == old(o.ZeroLengthSectionAsEOF) && o.MaxIndexCidSize == old(o.MaxIndexCidSize) && o.StoreIdentityCIDs == old(o.StoreIdentityCIDs) && o.BlockstoreAllowDuplicatePuts == old(o.BlockstoreAllowDuplicatePuts) && o.BlockstoreUseWholeCIDs == old(o.BlockstoreUseWholeCIDs) && o.MaxTraversalLinks == old(o.MaxTraversalLinks) && o.WriteAsCarV1 == old(o.WriteAsCarV1) && o.TrustedCAR == old(o.TrustedCAR) && o.MaxAllowedHeaderSize == old(o.MaxAllowedHeaderSize)
+//@   end
+
+//@ func UseWholeCIDs
+//@   closure[0]
+//@     ensures sets_its_field [C04,C07]: o.BlockstoreUseWholeCIDs == enable
+//@     ensures touches_nothing_else [C04,C07]: o.DataPadding == old(o.DataPadding) && o.IndexPadding == old(o.IndexPadding) && o.IndexCodec == old(o.IndexCodec) && o.ZeroLengthSectionAsEOF == old(o.ZeroLengthSectionAsEOF) && o.MaxIndexCidSize == old(o.MaxIndexCidSize) && o.StoreIdentityCIDs == old(o.StoreIdentityCIDs) && o.BlockstoreAllowDuplicatePuts == old(o.BlockstoreAllowDuplicatePuts) && o.MaxTraversalLinks == old(o.MaxTraversalLinks) && o.WriteAsCarV1 == old(o.WriteAsCarV1) && o.TrustedCAR == old(o.TrustedCAR) && o.MaxAllowedHeaderSize == old(o.MaxAllowedHeaderSize) && o.MaxAllowedSectionSize == old(o.MaxAllowedSectionSize)
+//@   end
+
+//@ func WriteAsCarV1
+//@   closure[0]
+//@     ensures sets_its_field [C05,C12]: o.WriteAsCarV1 == asCarV1
+//@     ensures touches_nothing_else [C05,C12]: o.DataPadding == old(o.DataPadding) && o.IndexPadding == old(o.IndexPadding) && o.IndexCodec == old(o.IndexCodec) && o.ZeroLengthSectionAsEOF == old(o.ZeroLengthSectionAsEOF) && o.MaxIndexCidSize == old(o.MaxIndexCidSize) && o.StoreIdentityCIDs == old(o.StoreIdentityCIDs) && o.BlockstoreAllowDuplicatePuts == old(o.BlockstoreAllowDuplicatePuts) && o.BlockstoreUseWholeCIDs == old(o.BlockstoreUseWholeCIDs) && o.MaxTraversalLinks == old(o.MaxTraversalLinks) && o.TrustedCAR == old(o.TrustedCAR) && o.MaxAllowedHeaderSize == old(o.MaxAllowedHeaderSize) && o.MaxAllowedSectionSize == old(o.MaxAllowedSectionSize)
+//@   end
+
+//@ func AllowDuplicatePuts
+//@   closure[0]
+//@     ensures sets_its_field [C04]: o.BlockstoreAllowDuplicatePuts == allow
+//@     ensures touches_nothing_else [C04]: o.DataPadding == old(o.DataPadding) && o.IndexPadding == old(o.IndexPadding) && o.IndexCodec == old(o.IndexCodec) && o.ZeroLengthSectionAsEOF == old(o.ZeroLengthSectionAsEOF) && o.MaxIndexCidSize == old(o.MaxIndexCidSize) && o.StoreIdentityCIDs == old(o.StoreIdentityCIDs) && o.BlockstoreUseWholeCIDs == old(o.BlockstoreUseWholeCIDs) && o.MaxTraversalLinks == old(o.MaxTraversalLinks) && o.WriteAsCarV1 == old(o.WriteAsCarV1) && o.TrustedCAR == old(o.TrustedCAR) && o.MaxAllowedHeaderSize == old(o.MaxAllowedHeaderSize) && o.MaxAllowedSectionSize == old(o.MaxAllowedSectionSize)
+//@   end
+
+//@ func ApplyOptions
+//@   ensures codec_default [C05,C11]: result.IndexCodec != 0
+//@   ensures cid_size_default [C04]: result.MaxIndexCidSize != 0
+//@   loop[0] invariant untouched_without_options [C04,C05,C09]: len(opt) == 0 ==> cur(opts).MaxAllowedHeaderSize == 33554432 && cur(opts).MaxAllowedSectionSize == 8388608 && cur(opts).IndexCodec == 0 && cur(opts).MaxIndexCidSize == 0 && cur(opts).DataPadding == 0 && cur(opts).IndexPadding == 0 && !cur(opts).StoreIdentityCIDs && !cur(opts).BlockstoreUseWholeCIDs && !cur(opts).BlockstoreAllowDuplicatePuts && !cur(opts).WriteAsCarV1 && !cur(opts).ZeroLengthSectionAsEOF && !cur(opts).TrustedCAR
+//@   ensures no_options_means_defaults [C04,C05,C09]: len(opt) == 0 ==> result.MaxAllowedHeaderSize == 33554432 && result.MaxAllowedSectionSize == 8388608 && result.IndexCodec == 1025 && result.MaxIndexCidSize == 2048 && result.DataPadding == 0 && result.IndexPadding == 0 && !result.StoreIdentityCIDs && !result.BlockstoreUseWholeCIDs && !result.BlockstoreAllowDuplicatePuts && !result.WriteAsCarV1 && !result.ZeroLengthSectionAsEOF && !result.TrustedCAR
